@@ -87,6 +87,53 @@ func c16NameConfigs() []c16Cfg {
 	return out
 }
 
+// c16KeyPairs: composite keys match only when every component matches - for every table key t1 and every
+// probe key t2 over a component alphabet with separator- and tag-like strings, the probe matches iff the
+// reference keys are equal.
+func c16KeyPairs() fw.Result {
+	a := newAcc("C16", "join-key-pairs")
+	cfg := c16Configs()[4] // inner-composite
+	comps := []any{"a", "b", "c", "", "\x1f", "a\x1fs:b", "b\x1fs:c", "s:a", "n:1", "1", 1, 1.0, "<nil>", "3:s:a"}
+	var uni [][]any
+	for _, x := range comps {
+		for _, y := range comps {
+			uni = append(uni, []any{x, y})
+		}
+	}
+	for ti, t1 := range uni {
+		init := []Row{{"dev": t1[0], "site": t1[1], "loc": "T"}}
+		var ops []c16Op
+		for _, t2 := range uni {
+			ops = append(ops, c16Op{Kind: "emit", Key: t2})
+		}
+		got, want, execErr, st, pv := c16Run(cfg, init, ops)
+		a.r.Evaluations += int64(len(ops))
+		a.r.States += int64(len(ops))
+		a.r.Transitions += int64(len(ops))
+		a.r.Nontrivial++
+		cs := map[string]any{"sql": cfg.SQL, "table": init}
+		if st != sched.StatusOK || execErr != "" {
+			a.fail("C16|key-pairs|exec", execErr+" "+st.String()+" "+firstLine(pv), cs, nil, nil)
+			continue
+		}
+		for i := range want {
+			if i >= len(got) || !c16Eq(got[i], want[i]) {
+				kind := "different-keys-match"
+				if want[i] != nil {
+					kind = "equal-keys-do-not-match"
+				}
+				a.fail("C16|key-pairs|"+kind, fmt.Sprintf("%s with table key %s: a row with key %s gives %s, reference %s", cfg.SQL, js(t1), js(uni[i]), js(got[i]), js(want[i])),
+					map[string]any{"sql": cfg.SQL, "table": init, "probe": uni[i]}, want[i], got[i])
+				break
+			}
+		}
+		if ti == 5 {
+			a.sample(map[string]any{"sql": cfg.SQL, "table_key": t1, "probes": len(uni)})
+		}
+	}
+	return a.result()
+}
+
 // c16Names runs a fixed operation script on every naming configuration.
 func c16Names() fw.Result {
 	a := newAcc("C16", "join-names")
@@ -319,6 +366,7 @@ func (c16) Plan(tier string) []fw.Unit {
 	}
 	us = append(us, fw.Unit{Check: "C16", Kind: "groupby", Tier: tier, Spec: fw.Spec(enumSpec{})})
 	us = append(us, fw.Unit{Check: "C16", Kind: "names", Tier: tier, Spec: fw.Spec(enumSpec{})})
+	us = append(us, fw.Unit{Check: "C16", Kind: "key-pairs", Tier: tier, Spec: fw.Spec(enumSpec{})})
 	return us
 }
 
@@ -331,6 +379,9 @@ func (c16) Run(u fw.Unit) fw.Result {
 	}
 	if u.Kind == "names" {
 		return c16Names()
+	}
+	if u.Kind == "key-pairs" {
+		return c16KeyPairs()
 	}
 	sp := parseEnum(u)
 	cfg := c16Configs()[sp.Cfg]
@@ -572,7 +623,7 @@ func c16Scenarios() []schedScenario {
 func (c16) Describe(tier string) fw.Description {
 	return fw.Description{
 		Level: "model_checking",
-		Rule: "(a) 6 JOIN queries (INNER/LEFT, with/without stream and table aliases, WHERE, composite ON) x 2-3 initial tables x all operation sequences of length 1..L over {EmitSync(key), UpsertTable(key), Delete(key)} with key components from {1, 1.0, '1', 2, 'a', NULL, 1000000, 1000000.0} (composite: {1,'1',1.0} x {'x','y',NULL}) on the real engine against a typed-key reference table (numbers numeric, strings exact, never across, NULL matches nothing); (a2) 864 naming configurations (stream alias none|s|st|ms x table alias m|t|none x stream key field x table key field, incl. names starting with the letters of their qualifier; INNER/LEFT) on a fixed 7-operation script; (b) WHERE + GROUP BY on a joined column with CountingWindow(2) over all dev sequences of length 6; (c) schedules: a thread emitting two rows against a thread doing Upsert then Delete, all interleavings with <= bound deviations: each delivered row must be the join against a table version between the version when Emit was called and the version when the result was delivered; non-trivial = at least one emit matched",
+		Rule: "(a) 6 JOIN queries (INNER/LEFT, with/without stream and table aliases, WHERE, composite ON) x 2-3 initial tables x all operation sequences of length 1..L over {EmitSync(key), UpsertTable(key), Delete(key)} with key components from {1, 1.0, '1', 2, 'a', NULL, 1000000, 1000000.0} (composite: {1,'1',1.0} x {'x','y',NULL}) on the real engine against a typed-key reference table (numbers numeric, strings exact, never across, NULL matches nothing); (a2) 864 naming configurations (stream alias none|s|st|ms x table alias m|t|none x stream key field x table key field, incl. names starting with the letters of their qualifier; INNER/LEFT) on a fixed 7-operation script; (a3) composite-key pair search: every (table key, probe key) pair over 15 component values incl. unit-separator-, tag- and NULL-marker-like strings must match iff equal; (b) WHERE + GROUP BY on a joined column with CountingWindow(2) over all dev sequences of length 6; (c) schedules: a thread emitting two rows against a thread doing Upsert then Delete, all interleavings with <= bound deviations: each delivered row must be the join against a table version between the version when Emit was called and the version when the result was delivered; non-trivial = at least one emit matched",
 		Bounds:      map[string]any{"max_ops": map[string]int{"quick": 3, "thorough": 4}, "sched_bound": map[string]int{"quick": 1, "thorough": 2}},
 		Assumptions: []string{"a NULL key component matches nothing (SQL equality)"},
 	}
